@@ -1003,4 +1003,268 @@ Qed.
 
 End WrfAlgebra.
 
+
+(* ================================================================================================ *)
+(* G. weighted RF and the Kuhner-Felsenstein radicand on trees                                       *)
+(* ================================================================================================ *)
+(* every branch that induces a reported split carries a length *)
+Definition lengths_present (t : arena) (r : rtree) : Prop :=
+  forall n, In n t -> cand n = true -> trivial_part (pb t r n) = false -> npedge n <> None.
+
+(* the length of split k in the tree, zero where the split is absent *)
+Definition slen (t : arena) (r : rtree) (k : bits) : L :=
+  match split_len t r k with Some l => l | None => l0 O end.
+
+(* the length map handed out by get_partitions_with_lengths *)
+Definition lmap (t : arena) (r : rtree) : plist := lens_of (pm t r).
+
+Lemma all_some_map {A} (os : list (option A)) : (forall o, In o os -> o <> None) -> exists ls, os = map Some ls.
+Proof.
+  induction os as [|o os IH]; intros H; [exists []; reflexivity|].
+  destruct IH as (ls & ->); [intros; apply H; simpl; auto|].
+  destruct o as [v|]; [|exfalso; apply (H None); simpl; auto]. exists (v :: ls). reflexivity.
+Qed.
+
+Section WeightedOne.
+Variables (t : arena) (root : nat) (r : rtree).
+Hypothesis G : Good t root r.
+Hypothesis HP : lengths_present t r.
+
+Lemma all_lens_present : all_lens (pm t r) = true.
+Proof. apply (all_lens_iff t root r G). exact HP. Qed.
+
+Lemma lmap_keys : map fst (lmap t r) = part_keys t r.
+Proof. unfold lmap. rewrite lens_of_keys by apply all_lens_present. apply pm_keys. Qed.
+
+Lemma lmap_NoDup : NoDup (map fst (lmap t r)).
+Proof. rewrite lmap_keys. apply (part_keys_NoDup t root r G). Qed.
+
+Lemma lmap_len_at k : len_at (lmap t r) k = slen t r k.
+Proof.
+  unfold len_at, lmap, slen. rewrite (gpwl_entry t r k all_lens_present).
+  unfold split_depth, split_len. destruct (pmap_get (pm t r) k) as [[d [l|]]|]; reflexivity.
+Qed.
+
+Lemma lmap_entry e : In e (lmap t r) -> In (fst e) (part_keys t r) /\ len_e e = slen t r (fst e).
+Proof.
+  intros He. split.
+  - rewrite <- lmap_keys. apply in_map. auto.
+  - rewrite <- lmap_len_at. unfold len_at. rewrite (plen_get_NoDup _ e lmap_NoDup He).
+    destruct e as [k [d l]]. reflexivity.
+Qed.
+
+(* every stored length is the left-to-right sum of the lengths of all inducing branches *)
+Theorem lmap_entry_sum e : In e (lmap t r) ->
+  exists n ns ls, inducing t r (fst e) = n :: ns /\ map (@npedge L) (n :: ns) = map Some ls /\
+                  match ls with [] => False | x :: ls' => len_e e = fold_left (ladd O) ls' x end.
+Proof.
+  intros He. destruct (lmap_entry e He) as [Hk Hl].
+  apply (inducing_nonempty t r) in Hk. destruct (inducing t r (fst e)) as [|n ns] eqn:E; [congruence|].
+  assert (Hall : forall n', In n' (n :: ns) -> npedge n' <> None).
+  { intros n' Hn'. rewrite <- E in Hn'. apply inducing_In in Hn' as (H1 & H2 & H3 & H4). apply HP; auto. rewrite H3; auto. }
+  assert (Hls : exists ls, map (@npedge L) (n :: ns) = map Some ls).
+  { apply all_some_map. intros o Ho. apply in_map_iff in Ho as (n' & <- & Hn'). auto. }
+  destruct Hls as (ls & Hls). exists n, ns, ls. split; auto. split; auto.
+  pose proof (split_len_all_present t r (fst e) n ns ls E Hls) as Hs.
+  destruct ls as [|x ls']; [discriminate|]. rewrite Hl. unfold slen. rewrite Hs. reflexivity.
+Qed.
+
+End WeightedOne.
+
+(* missing lengths: the stored entry is None, the request fails *)
+Theorem gpwl_missing t root r n :
+  Good t root r -> In n t -> cand n = true -> trivial_part (pb t r n) = false -> npedge n = None ->
+  get_partitions_with_lengths O (tree_of t) = Err MissingBranchLengths.
+Proof.
+  intros G Hn Hc Ht E. rewrite (gpwl_fresh t root r G).
+  destruct (all_lens (pm t r)) eqn:A; [|reflexivity].
+  exfalso. apply (proj1 (all_lens_iff t root r G) A n); auto.
+Qed.
+
+Section WeightedTwo.
+Variables (t1 t2 : arena) (root1 root2 : nat) (r1 r2 : rtree).
+Hypothesis G1 : Good t1 root1 r1.
+Hypothesis G2 : Good t2 root2 r2.
+
+(* 8d'. a missing length in either tree: MissingBranchLengths *)
+Theorem wrf_missing sq :
+  (exists n, In n t1 /\ cand n = true /\ trivial_part (pb t1 r1 n) = false /\ npedge n = None) \/
+  (exists n, In n t2 /\ cand n = true /\ trivial_part (pb t2 r2 n) = false /\ npedge n = None) ->
+  weighted_rf O sq (tree_of t1) (tree_of t2) = Err MissingBranchLengths /\
+  compare_topologies O (tree_of t1) (tree_of t2) = Err MissingBranchLengths.
+Proof.
+  intros H.
+  assert (A : all_lens (pm t1 r1) && all_lens (pm t2 r2) = false).
+  { apply andb_false_iff. destruct H as [(n & Hn & Hc & Ht & E)|(n & Hn & Hc & Ht & E)]; [left|right];
+      apply not_true_iff_false; intros A.
+    - apply (proj1 (all_lens_iff t1 root1 r1 G1) A n); auto.
+    - apply (proj1 (all_lens_iff t2 root2 r2 G2) A n); auto. }
+  rewrite (wrf_unfold sq t1 t2 root1 root2 r1 r2 G1 G2), (compare_topologies_unfold t1 t2 root1 root2 r1 r2 G1 G2).
+  rewrite A. auto.
+Qed.
+
+(* conversely the only failure is a missing length *)
+Theorem wrf_total sq :
+  (exists v, weighted_rf O sq (tree_of t1) (tree_of t2) = Ok (v, TC t1 r1, TC t2 r2)) \/
+  weighted_rf O sq (tree_of t1) (tree_of t2) = Err MissingBranchLengths.
+Proof.
+  rewrite (wrf_unfold sq t1 t2 root1 root2 r1 r2 G1 G2). destruct (_ && _); eauto.
+Qed.
+
+Hypothesis HP1 : lengths_present t1 r1.
+Hypothesis HP2 : lengths_present t2 r2.
+
+(* 8a. all lengths present: the value is wrf_sum over the two length maps *)
+Theorem wrf_refines sq :
+  weighted_rf O sq (tree_of t1) (tree_of t2) = Ok (wrf_sum O sq (lmap t1 r1) (lmap t2 r2), TC t1 r1, TC t2 r2) /\
+  get_partitions_with_lengths O (tree_of t1) = Ok (lmap t1 r1, TC t1 r1) /\
+  get_partitions_with_lengths O (tree_of t2) = Ok (lmap t2 r2, TC t2 r2).
+Proof.
+  rewrite (wrf_unfold sq t1 t2 root1 root2 r1 r2 G1 G2), (gpwl_fresh t1 root1 r1 G1), (gpwl_fresh t2 root2 r2 G2).
+  rewrite (all_lens_present t1 root1 r1 G1 HP1), (all_lens_present t2 root2 r2 G2 HP2). auto.
+Qed.
+
+(* the keys of the union: splits of the first tree, then those only in the second *)
+Definition union_keys : list bits :=
+  part_keys t1 r1 ++ filter (fun k => negb (mem_bits k (part_keys t1 r1))) (part_keys t2 r2).
+
+Lemma ukeys_lmap : ukeys (lmap t1 r1) (lmap t2 r2) = union_keys.
+Proof.
+  unfold ukeys, union_keys.
+  rewrite (lmap_keys t1 root1 r1 G1 HP1), (lmap_keys t2 root2 r2 G2 HP2). reflexivity.
+Qed.
+
+(* 8c. the value as one sum over the union of the two split sets of f(len1 - len2), absent = 0 *)
+Theorem wrf_refines_sum sq :
+  (forall k, In k (part_keys t1 r1) -> wf_ sq (lsub O (slen t1 r1 k) (l0 O)) = wg_ sq (slen t1 r1 k)) ->
+  (forall k, In k (part_keys t2 r2) -> wf_ sq (lsub O (l0 O) (slen t2 r2 k)) = wg_ sq (slen t2 r2 k)) ->
+  weighted_rf O sq (tree_of t1) (tree_of t2) =
+  Ok (fold_left (ladd O) (map (fun k => wf_ sq (lsub O (slen t1 r1 k) (slen t2 r2 k))) union_keys) (l0 O),
+      TC t1 r1, TC t2 r2).
+Proof.
+  intros H1 H2. destruct (wrf_refines sq) as (-> & _). do 2 f_equal. f_equal.
+  rewrite wrf_sum_union.
+  - rewrite ukeys_lmap. f_equal. apply map_ext. intros k.
+    rewrite (lmap_len_at t1 root1 r1 G1 HP1), (lmap_len_at t2 root2 r2 G2 HP2). reflexivity.
+  - apply (lmap_NoDup t1 root1 r1 G1 HP1).
+  - apply (lmap_NoDup t2 root2 r2 G2 HP2).
+  - intros e He. destruct (lmap_entry t1 root1 r1 G1 HP1 e He) as [Hk ->]. auto.
+  - intros e He. destruct (lmap_entry t2 root2 r2 G2 HP2 e He) as [Hk ->]. auto.
+Qed.
+
+(* weighted RF proper: sum of |len1 - len2| *)
+Corollary wrf_value :
+  (forall k, In k (part_keys t1 r1) -> labs O (lsub O (slen t1 r1 k) (l0 O)) = slen t1 r1 k) ->
+  (forall k, In k (part_keys t2 r2) -> labs O (lsub O (l0 O) (slen t2 r2 k)) = slen t2 r2 k) ->
+  weighted_rf O false (tree_of t1) (tree_of t2) =
+  Ok (fold_left (ladd O) (map (fun k => labs O (lsub O (slen t1 r1 k) (slen t2 r2 k))) union_keys) (l0 O),
+      TC t1 r1, TC t2 r2).
+Proof. intros H1 H2. apply (wrf_refines_sum false); auto. Qed.
+
+(* Kuhner-Felsenstein: the radicand is the sum of squared differences *)
+Corollary kf_refines :
+  (forall k, In k (part_keys t1 r1) ->
+     lmul O (lsub O (slen t1 r1 k) (l0 O)) (lsub O (slen t1 r1 k) (l0 O)) = lmul O (slen t1 r1 k) (slen t1 r1 k)) ->
+  (forall k, In k (part_keys t2 r2) ->
+     lmul O (lsub O (l0 O) (slen t2 r2 k)) (lsub O (l0 O) (slen t2 r2 k)) = lmul O (slen t2 r2 k) (slen t2 r2 k)) ->
+  weighted_rf O true (tree_of t1) (tree_of t2) =
+  Ok (fold_left (ladd O)
+        (map (fun k => lmul O (lsub O (slen t1 r1 k) (slen t2 r2 k)) (lsub O (slen t1 r1 k) (slen t2 r2 k))) union_keys)
+        (l0 O),
+      TC t1 r1, TC t2 r2).
+Proof. intros H1 H2. apply (wrf_refines_sum true); auto. Qed.
+
+(* 8d. symmetry, given an associative-commutative + and f(a - b) = f(b - a) *)
+Theorem wrf_sym sq :
+  (forall x y z, ladd O x (ladd O y z) = ladd O (ladd O x y) z) ->
+  (forall x y, ladd O x y = ladd O y x) ->
+  (forall a b, wf_ sq (lsub O a b) = wf_ sq (lsub O b a)) ->
+  omap_out (fun x => fst (fst x)) (weighted_rf O sq (tree_of t1) (tree_of t2)) =
+  omap_out (fun x => fst (fst x)) (weighted_rf O sq (tree_of t2) (tree_of t1)).
+Proof.
+  intros Ha Hc Hs.
+  rewrite (wrf_unfold sq t1 t2 root1 root2 r1 r2 G1 G2), (wrf_unfold sq t2 t1 root2 root1 r2 r1 G2 G1).
+  rewrite (all_lens_present t1 root1 r1 G1 HP1), (all_lens_present t2 root2 r2 G2 HP2). cbn.
+  f_equal. apply wrf_sum_sym; auto.
+  - apply (lmap_NoDup t1 root1 r1 G1 HP1).
+  - apply (lmap_NoDup t2 root2 r2 G2 HP2).
+Qed.
+
+(* the report carries exactly these two values *)
+Theorem report_weighted :
+  exists c, compare_topologies O (tree_of t1) (tree_of t2) = Ok (c, TC t1 r1, TC t2 r2) /\
+            weighted_rf O false (tree_of t1) (tree_of t2) = Ok (c_wrf c, TC t1 r1, TC t2 r2) /\
+            weighted_rf O true (tree_of t1) (tree_of t2) = Ok (c_kf2 c, TC t1 r1, TC t2 r2) /\
+            c_rf c = rf_value t1 t2 r1 r2 /\
+            c_tot c = length (part_keys t2 r2) + length (part_keys t1 r1).
+Proof.
+  rewrite (compare_topologies_unfold t1 t2 root1 root2 r1 r2 G1 G2).
+  rewrite !(wrf_unfold _ t1 t2 root1 root2 r1 r2 G1 G2).
+  rewrite (all_lens_present t1 root1 r1 G1 HP1), (all_lens_present t2 root2 r2 G2 HP2). cbn [andb].
+  eexists. split; [reflexivity|]. cbn. auto.
+Qed.
+
+End WeightedTwo.
+
+(* symmetric even when lengths are missing: both orders fail alike *)
+Theorem wrf_sym_missing sq t1 t2 root1 root2 r1 r2 :
+  Good t1 root1 r1 -> Good t2 root2 r2 ->
+  ~ (lengths_present t1 r1 /\ lengths_present t2 r2) ->
+  weighted_rf O sq (tree_of t1) (tree_of t2) = Err MissingBranchLengths /\
+  weighted_rf O sq (tree_of t2) (tree_of t1) = Err MissingBranchLengths.
+Proof.
+  intros G1 G2 H.
+  rewrite (wrf_unfold sq t1 t2 root1 root2 r1 r2 G1 G2), (wrf_unfold sq t2 t1 root2 root1 r2 r1 G2 G1).
+  rewrite (andb_comm (all_lens (pm t2 r2))).
+  destruct (all_lens (pm t1 r1) && all_lens (pm t2 r2)) eqn:A; auto.
+  exfalso. apply H. apply andb_true_iff in A as [A1 A2].
+  split; [exact (proj1 (all_lens_iff t1 root1 r1 G1) A1)|exact (proj1 (all_lens_iff t2 root2 r2 G2) A2)].
+Qed.
+
+(* a tree against itself *)
+Theorem wrf_self sq t root r :
+  Good t root r -> lengths_present t r ->
+  (forall a, wf_ sq (lsub O a a) = l0 O) -> ladd O (l0 O) (l0 O) = l0 O ->
+  weighted_rf O sq (tree_of t) (tree_of t) = Ok (l0 O, TC t r, TC t r).
+Proof.
+  intros G HP Hz H0. destruct (wrf_refines t t root root r r G G HP HP sq) as (-> & _).
+  rewrite wrf_sum_self_zero; auto. apply (lmap_NoDup t root r G HP).
+Qed.
+
 End RFArena.
+
+(* ================================================================================================ *)
+(* assumptions of the main results                                                                  *)
+(* ================================================================================================ *)
+Print Assumptions rf_unfold.
+Print Assumptions rf_refines.
+Print Assumptions rf_unrooted.
+Print Assumptions rf_sym.
+Print Assumptions rf_leafset_mismatch.
+Print Assumptions rf_self.
+Print Assumptions rf_reorder.
+Print Assumptions rf_unary.
+Print Assumptions rf_reroot.
+Print Assumptions rf_norm_value.
+Print Assumptions rf_norm_unit_interval.
+Print Assumptions compare_topologies_unfold.
+Print Assumptions rf_report.
+Print Assumptions report_agrees.
+Print Assumptions report_weighted.
+Print Assumptions pm_get.
+Print Assumptions split_len_sum.
+Print Assumptions split_len_all_present.
+Print Assumptions split_len_missing.
+Print Assumptions all_lens_iff.
+Print Assumptions lmap_entry_sum.
+Print Assumptions wrf_sum_terms.
+Print Assumptions wrf_sum_keys.
+Print Assumptions wrf_sum_union.
+Print Assumptions wrf_sum_sym.
+Print Assumptions wrf_refines.
+Print Assumptions wrf_refines_sum.
+Print Assumptions wrf_value.
+Print Assumptions kf_refines.
+Print Assumptions wrf_sym.
+Print Assumptions wrf_missing.
+Print Assumptions wrf_self.
